@@ -342,7 +342,10 @@ struct SmallSetEngine : EngineBase {
         { MonScope mm; if (!walk(s, order, nullptr, nullptr, "C11")) return; }
         typename Set::const_iterator rit;
         auto f = nth(s, op.i), l = nth(s, op.j);
+        // erasing moves elements with amc's own helpers only: an element move-assigned onto itself loses its value (as a std::vector or a long std::string would)
+        g_selfmove_poison = true;
         window([&] { rit = s.erase(f, l); });
+        g_selfmove_poison = false;
         if (threw) { violation("C04", "model.unexpected_exception", threw_what); return; }
         { MonScope mm; for (int q = op.i; q < op.j; ++q) m.erase(order[q]); }
         int c = classify(s, rit, "erase(first,last)");
